@@ -326,3 +326,8 @@ pub(crate) fn render_simple(items: &[ShowComp]) -> Result<String, std::fmt::Erro
     }
     Ok(res)
 }
+
+#[cfg(kani)]
+mod verif_kani {
+    include!(concat!(env!("PACAK_BPAF_VERIF_DIR"), "/kani/complete_shell.rs"));
+}
